@@ -138,3 +138,10 @@ PROPS['C19']['eb'] = [dict(EB_CLIENT, tests=['client_new_initial_period_normaliz
 PROPS['C11']['eb'].append(_findings_group(['f_timeout_current_panics']))
 PROPS['C02']['eb'] = [_findings_group(['f_subid_wire_width'])]
 PROPS['C16']['eb'] = [_findings_group(['f_subid_avail_not_enforced'])]
+
+EB_AWS = {'name': 'aws', 'crate': 'gneiss-mqtt-aws', 'module_dir': 'gneiss_mqtt_aws', 'features': ['threaded-rustls'], 'tests': ['custom_auth_query_string_round_trips'], 'timeout': 3000}
+PROPS['C20'] = _ev(['aws'], 'Unbounded proofs, on the real builder code of both crates, that apply_aws_defaults changes exactly the drain policy and retry limit and only for an MQTT 3.1.1 client whose user set neither, '
+                   'and that build_final_connect_options keeps a user client id, otherwise installs a fresh 36-character one, replaces only username/password under custom auth and preserves every other connect option. '
+                   'The custom-auth query string (format!/write!) is a bounded check against an RFC 3986 reference parser.', design_ref='DESIGN.md 3/C20',
+                   level_note=TRUST_COMMON + ' uuid::Uuid::to_string is assumed to be the 36-character form; derived Clone impls are assumed to copy.',
+                   eb=[EB_AWS])
